@@ -140,6 +140,16 @@ func runC12(r *R) {
 	for i := 0; i < nrounds; i++ {
 		rounds = append(rounds, genC12Round(t, syncLit))
 	}
+	// after a round the caller may select another mailbox without closing the current one; an IMAP4rev1
+	// server announces the new mailbox without "* OK [CLOSED]" (RFC 3501 6.3.1), an IMAP4rev2 server with it
+	type reselect struct {
+		do, closed bool
+		count      uint32
+	}
+	var resel []reselect
+	for i := 0; i < nrounds; i++ {
+		resel = append(resel, reselect{do: t.Choose(3) == 0, closed: t.Choose(2) == 0, count: uint32(t.Choose(40))})
+	}
 	// the server's ordering / interleaving choices are drawn during the run from a private tape
 	// derived from the plan (drawn here so that the plan tape stays the single source of choices)
 	srvSeed := uint64(t.Choose(1 << 30))
@@ -183,7 +193,7 @@ func runC12(r *R) {
 				return
 			}
 			srv.send(fmt.Sprintf("* %d EXISTS", model.count), "* FLAGS "+flagListText(model.flags), "* OK [PERMANENTFLAGS "+flagListText(model.pflags)+"] ok", "* OK [UIDVALIDITY 7] ok", "* OK [UIDNEXT 99] ok", c.Tag+" OK [READ-WRITE] selected")
-			for _, round := range rounds {
+			for ri, round := range rounds {
 				if !c12ServeRound(r, srv, st, round, model) {
 					return
 				}
@@ -193,6 +203,18 @@ func runC12(r *R) {
 					return
 				}
 				srv.send(c.Tag + " OK noop")
+				if resel[ri].do {
+					if c, ok = srv.readCommand(); !ok {
+						return
+					}
+					if resel[ri].closed {
+						srv.send("* OK [CLOSED] previous mailbox closed")
+					}
+					model.count = resel[ri].count
+					model.flags = []imap.Flag{imap.FlagSeen, imap.FlagAnswered}
+					model.pflags = []imap.Flag{imap.FlagAnswered}
+					srv.send(fmt.Sprintf("* %d EXISTS", model.count), "* FLAGS "+flagListText(model.flags), "* OK [PERMANENTFLAGS "+flagListText(model.pflags)+"] ok", "* OK [UIDVALIDITY 8] ok", "* OK [UIDNEXT 3] ok", c.Tag+" OK [READ-WRITE] selected")
+				}
 			}
 			// LOGOUT or close
 			if c, ok = srv.readCommand(); ok && c.Name == "LOGOUT" {
@@ -241,6 +263,21 @@ func runC12(r *R) {
 				}
 				if a, b, ok := jsonEq(flagStrs(model.pflags), flagStrs(mb.PermanentFlags)); !ok {
 					r.Violate("state-mirror", "PermanentFlags", "after round %d Mailbox().PermanentFlags = %s, the transcript implies %s", ri, b, a)
+				}
+				if resel[ri].do {
+					r.Probe("reselect_without_close")
+					want := resel[ri].count
+					data, err := c.Select("Second", nil).Wait()
+					if err != nil {
+						r.Violate("call-failed", "Select", "SELECT of a second mailbox failed: %v", err)
+						return
+					}
+					if data.NumMessages != want {
+						r.Violate("misrouted-data", "select", "SELECT of a second mailbox (server sends CLOSED: %v): the server announced %d messages, SelectData.NumMessages = %d", resel[ri].closed, want, data.NumMessages)
+					}
+					if mb := c.Mailbox(); mb == nil || mb.Name != "Second" || mb.NumMessages != want {
+						r.Violate("state-mirror", "reselect", "after SELECT of a second mailbox with %d messages (server sends CLOSED: %v) Mailbox() = %+v", want, resel[ri].closed, mb)
+					}
 				}
 			}
 			finalState, finalMbox = c.State(), c.Mailbox()
